@@ -28,10 +28,12 @@ def run(case):
     viol, stats = sched.check_sp(H, case, ID)
     for e in H.errs:
         viol.append(('%s.2/%s' % (ID, e[1] if isinstance(e, tuple) and len(e) > 1 else 'exc'), 'the run raised %r' % (e,)))
-    for a in H.deps:
-        # non-abortion: a transmission, once started, runs for exactly 8*size/rate (its start is not before the
-        # previous departure)
-        pass
+    # "a transmission in progress is never aborted": every packet leaves exactly once, transmissions never overlap
+    # and each lasts exactly 8*size/rate (the timing law and the exactly-once clause of the scheduler rig)
+    vg, _sg, _nt = sched.check_generic(H, case, 'C13g')
+    for cl, msg in vg:
+        if cl in ('C13g.1', 'C13g.2'):
+            viol.append(('C13.2', 'non-preemptive service: ' + msg))
     res = {'viol': viol, 'digest': digest_of(r.w.log), 'nontrivial': bool(stats.get('ge2_levels_backlogged')),
            'stats': stats, 'simtime': float(r.w.env.now), 'steps': r.w.steps}
     if case.get('_excerpt'):
